@@ -116,8 +116,40 @@ def key(t: Term) -> str:
     return repr(t)
 
 
+def map_children(t: Term, r: Callable[[Term], Term]) -> Term:
+    """Rebuild t with r applied to every direct sub-term (version tags are kept)."""
+    k = t[0]
+    if k == "attr":
+        return ("attr", r(t[1]), *t[2:])
+    if k == "sub":
+        return ("sub", r(t[1]), r(t[2]), *t[3:])
+    if k == "call":
+        return ("call", r(t[1]), tuple(r(a) for a in t[2]), tuple((n, r(v)) for n, v in t[3]), t[4])
+    if k in ("bin", "cmp"):
+        return (k, t[1], r(t[2]), r(t[3]))
+    if k == "un":
+        return (k, t[1], r(t[2]))
+    if k in ("not", "star", "dstar"):
+        return (k, r(t[1]))
+    if k == "bool":
+        return (k, t[1], tuple(r(x) for x in t[2]))
+    if k == "ifexp":
+        return (k, r(t[1]), r(t[2]), r(t[3]))
+    if k in ("tuple", "list", "set"):
+        return (k, tuple(r(x) for x in t[1]))
+    if k == "dict":
+        return (k, tuple((None if a is None else r(a), r(b)) for a, b in t[1]))
+    if k == "lambda":
+        return (k, t[1], r(t[2]))
+    if k == "comp":
+        return (k, t[1], r(t[2]), tuple((g[0], r(g[1]), tuple(r(c) for c in g[2])) for g in t[3]))
+    if k == "slice":
+        return (k, *(None if x is None else r(x) for x in t[1:4]))
+    return t
+
+
 def strip_ver(t: Term) -> Term:
-    """Drop version tags (used when a rule wants the syntactic access path)."""
+    """Drop version tags, call occurrence ids and @epoch markers (the syntactic access path)."""
     if not isinstance(t, tuple) or not t:
         return t
     k = t[0]
@@ -130,22 +162,10 @@ def strip_ver(t: Term) -> Term:
             "call",
             strip_ver(t[1]),
             tuple(strip_ver(a) for a in t[2]),
-            tuple((n, strip_ver(v)) for n, v in t[3]),
+            tuple((n, strip_ver(v)) for n, v in t[3] if n != "@epoch"),
             None,
         )
-    if k in ("bin", "cmp"):
-        return (k, t[1], strip_ver(t[2]), strip_ver(t[3]))
-    if k == "un":
-        return (k, t[1], strip_ver(t[2]))
-    if k == "not":
-        return (k, strip_ver(t[1]))
-    if k == "bool":
-        return (k, t[1], tuple(strip_ver(x) for x in t[2]))
-    if k == "ifexp":
-        return (k, strip_ver(t[1]), strip_ver(t[2]), strip_ver(t[3]))
-    if k in ("tuple", "list", "set"):
-        return (k, tuple(strip_ver(x) for x in t[1]))
-    return t
+    return map_children(t, strip_ver)
 
 
 def subterms(t: Term) -> Iterable[Term]:
@@ -204,33 +224,7 @@ def mentions(t: Term, pred: Callable[[Term], bool]) -> bool:
 def substitute(t: Term, mapping: Dict[Term, Term]) -> Term:
     if t in mapping:
         return mapping[t]
-    k = t[0]
-    r = lambda x: substitute(x, mapping)  # noqa: E731
-    if k == "attr":
-        return ("attr", r(t[1]), *t[2:])
-    if k == "sub":
-        return ("sub", r(t[1]), r(t[2]), *t[3:])
-    if k == "call":
-        return ("call", r(t[1]), tuple(r(a) for a in t[2]), tuple((n, r(v)) for n, v in t[3]), t[4])
-    if k in ("bin", "cmp"):
-        return (k, t[1], r(t[2]), r(t[3]))
-    if k == "un":
-        return (k, t[1], r(t[2]))
-    if k in ("not", "star", "dstar"):
-        return (k, r(t[1]))
-    if k == "bool":
-        return (k, t[1], tuple(r(x) for x in t[2]))
-    if k == "ifexp":
-        return (k, r(t[1]), r(t[2]), r(t[3]))
-    if k in ("tuple", "list", "set"):
-        return (k, tuple(r(x) for x in t[1]))
-    if k == "dict":
-        return (k, tuple((None if a is None else r(a), r(b)) for a, b in t[1]))
-    if k == "lambda":
-        return (k, t[1], r(t[2]))
-    if k == "comp":
-        return (k, t[1], r(t[2]), tuple((g[0], r(g[1]), tuple(r(c) for c in g[2])) for g in t[3]))
-    return t
+    return map_children(t, lambda x: substitute(x, mapping))
 
 
 # ----------------------------------------------------------------------------- polynomials
